@@ -24,6 +24,8 @@ type PlanC18 struct {
 	// AbortMs[i] > 0: client i resets its connection (RST) that long after its session was established
 	// and its messages were sent; its session is established all the same and is owed its callbacks
 	AbortMs []int `json:"abort_ms,omitempty"`
+	// Again: after the first serve/close cycle the same Server is served and closed once more
+	Again bool `json:"again,omitempty"`
 }
 
 func genC18(t *simrt.Tape, tier string) interface{} {
@@ -47,6 +49,7 @@ func genC18(t *simrt.Tape, tier string) interface{} {
 	for i := t.Draw(3); i > 0; i-- {
 		p.Raw = append(p.Raw, t.Draw(span+1))
 	}
+	p.Again = t.Draw(4) == 0
 	p.CloseAtMs = t.Draw(2*span + 2)
 	if t.Draw(4) == 0 {
 		p.CloseAtMs = 0
@@ -308,6 +311,58 @@ func runC18(w *World, pi interface{}) {
 		}
 		w.Violate("C18.serving-goroutines-left", sig(site), "%d library goroutines are still alive 30 s after the server was closed and all clients left: %v", len(left), left)
 	}
+	// ---- a second life of the same Server: serve, one client, close ----
+	if p.Again && f.ServeRet.IsSet() && !w.Violated() {
+		w.Count("served-again")
+		ret2 := NewFlag()
+		var err2 error
+		go func() {
+			err2 = f.Server.ListenAndServe()
+			ret2.Set()
+		}()
+		time.Sleep(100 * time.Millisecond)
+		if ret2.IsSet() {
+			// not every listener kind can be listened on again (the in-process one cannot): a second
+			// serve that refuses to start is outside the property; closing the server again must
+			// still be orderly (no panic)
+			w.Count("second-serve-refused")
+			func() {
+				defer func() {
+					if r := recover(); r != nil {
+						w.Violate("C18.panic", "panic in Server.Close", "Server.Close panicked on a server whose second ListenAndServe had returned %v: %v", err2, r)
+					}
+				}()
+				_ = f.Server.Close()
+			}()
+			return
+		}
+		spec := CliSpec{L: 0, Auth: "guest", Buf: 1, IPBuf: 1}
+		FixSelector(p.Conf.Listeners[0], &spec)
+		cctx, ccancel := context.WithTimeout(context.Background(), 2*time.Minute)
+		ch, ses, cerr2 := f.ConnectChannel(cctx, spec, 90)
+		ccancel()
+		if cerr2 != nil || ses == nil || ses.State != lime.SessionStateEstablished {
+			w.Count("second-serve-no-session")
+			cerr2 = errors.New("no session")
+		} else {
+			go func() {
+				for range ch.MsgChan() {
+				}
+			}()
+		}
+		closeErr := f.Server.Close()
+		if !ret2.WaitFor(2 * time.Minute) {
+			w.Violate("C18.serve-did-not-return", sig("second ListenAndServe"), "the second ListenAndServe did not return within 2 simulated minutes of Close (Close error: %v)", closeErr)
+		} else if !errors.Is(err2, lime.ErrServerClosed) {
+			w.Violate("C18.serve-error-not-server-closed", sig("second ListenAndServe"), "the second ListenAndServe returned %v instead of ErrServerClosed", err2)
+		}
+		if ch != nil && cerr2 == nil {
+			if !w.Eventually(time.Minute, func() bool { return ch.State() == lime.SessionStateFinished || ch.State() == lime.SessionStateFailed }) || ch.State() != lime.SessionStateFinished {
+				w.Violate("C18.client-did-not-see-finished", sig("second life transport="+p.Conf.Listeners[0]), "the client of the server's second life did not observe a finished session after Close (state %q)", ch.State())
+			}
+			ch.Close()
+		}
+	}
 }
 
 func init() {
@@ -319,7 +374,7 @@ func init() {
 		MaxSim:    2 * time.Hour,
 		PanicRule: "C18.panic",
 		Rule: "plans = (server with 1-3 listeners of mixed kinds, 0-5 real ClientChannel clients with start offsets and traffic, 0-2 raw clients that fail their handshake, clients that reset their established connection, per-write link latency to spread handshakes over time, " +
-			"the instant Server.Close is called: from before ListenAndServe has started, through mid-accept and mid-handshake, to established sessions with traffic); select poll order at the queue selects is an ordinary tape choice; " +
+			"the instant Server.Close is called: from before ListenAndServe has started, through mid-accept and mid-handshake, to established sessions with traffic; in a quarter of the runs the same Server is then served, used by one client and closed a second time); select poll order at the queue selects is an ordinary tape choice; " +
 			"non-trivial = the server was started; distinct = distinct (plan JSON, event-log hash)",
 	})
 }
